@@ -45,7 +45,9 @@ OnJunk(rs, e) == R("ok", NoSig, [rs EXCEPT !.streamLen = @ + Len(e.b), !.dirty =
 (* the next chunk of the stream reaches the PHY *)
 OnArrive(rs, e) == R("ok", NoSig, [rs EXCEPT !.arrived = @ + e.n], <<>>)
 
-(* a helper call: e.fn, e.pre (buffer bytes before), e.cbs (<<[n, last, t]>>), e.pending (bytes buffered afterwards) *)
+(* a helper call: e.fn, e.pre (buffer bytes before), e.cbs (<<[last, t]>>), e.pending (bytes buffered afterwards).      *)
+(* The length of a delivered telegram is the length of the frame that was sent (the wire length), not what the        *)
+(* implementation reports: a telegram framed as SD2 with LE = 3 or 11 is longer than its canonical encoding.          *)
 OnCall(rs, e) ==
   LET m == IF e.fn = "one" THEN RecvOne(e.pre) ELSE RecvAll(e.pre)
       clean == ~rs.dirty
@@ -54,13 +56,13 @@ OnCall(rs, e) ==
       nextIdx(i) == rs.delivered + i
       orderOk == \A i \in 1..ncb :
                     /\ nextIdx(i) <= Len(rs.sent)
-                    /\ e.cbs[i].n = Len(rs.sent[nextIdx(i)])
                     /\ e.cbs[i].t = WithPdu(Parse(rs.sent[nextIdx(i)]), rs.sent[nextIdx(i)])
+      SentLen(i) == IF nextIdx(i) <= Len(rs.sent) THEN Len(rs.sent[nextIdx(i)]) ELSE 0
       consumedBytes == IF e.cbs = <<>> THEN 0 ELSE
-                          LET RECURSIVE S(_) S(i) == IF i = 0 THEN 0 ELSE e.cbs[i].n + S(i - 1) IN S(ncb)
+                          LET RECURSIVE S(_) S(i) == IF i = 0 THEN 0 ELSE SentLen(i) + S(i - 1) IN S(ncb)
       (* is_last <=> no byte buffered behind that telegram at the time of the call-back *)
-      lastOk == \A i \in 1..ncb :
-                   LET before == LET RECURSIVE S(_) S(j) == IF j = 0 THEN 0 ELSE e.cbs[j].n + S(j - 1) IN S(i)
+      lastOk == e.fn = "one" \/ \A i \in 1..ncb :
+                   LET before == LET RECURSIVE S(_) S(j) == IF j = 0 THEN 0 ELSE SentLen(j) + S(j - 1) IN S(i)
                    IN e.cbs[i].last = (before = Len(e.pre))
       (* nothing of an incomplete telegram is dropped or duplicated: bytes buffered afterwards =   *)
       (* bytes before minus the delivered telegrams (clean stream)                                   *)
@@ -74,7 +76,8 @@ OnCall(rs, e) ==
       cs == IF clean
             THEN << <<"C16.order", orderOk>>, <<"C16.last", lastOk>>, <<"C16.keep", keepOk>>, <<"C16.deliver", liveOk>> >>
             ELSE << <<"C16.last", lastOk>> >>
-      mOk == e.cbs = m.cbs /\ e.pending = Len(m.buf)
+      mOk == /\ Len(e.cbs) = Len(m.cbs) /\ e.pending = Len(m.buf)
+             /\ \A i \in 1..Len(m.cbs) : e.cbs[i].t = m.cbs[i].t /\ (e.fn = "all" => e.cbs[i].last = m.cbs[i].last)
       (* a discard (dirty stream, buffer emptied) resynchronises: frames sent from now on are expected again *)
       resync == rs.dirty /\ e.pending = 0
       rs1 == [rs EXCEPT !.delivered = IF clean THEN @ + ncb ELSE @]
